@@ -38,7 +38,7 @@ fn c12_bracket_as_ascii_1() {
     body(vec![a], a.first, a.last, 0, 0, false);
 }
 
-// @verif props=C12,C06 tier=quick timeout=2400 unwind=132 bound="bracket of two arbitrary well-formed intervals, invert symbolic; every byte probed" funcs="emit::bracket_as_ascii,AsciiBitmap::set,AsciiBitmap::contains"
+// @verif props=C12,C06 tier=thorough timeout=3600 unwind=132 bound="bracket of two arbitrary well-formed intervals, invert symbolic; every byte probed" funcs="emit::bracket_as_ascii,AsciiBitmap::set,AsciiBitmap::contains"
 #[kani::proof]
 #[kani::unwind(132)]
 fn c12_bracket_as_ascii_2() {
